@@ -30,7 +30,30 @@ def run(prog, tier):
     volume(prog, chk, pi)
     bragg(prog, chk, kev)
     structure_factor(prog, chk, pi)
+    stored_volume(prog, chk, tier)
     return chk
+
+
+def stored_volume(prog, chk, tier):
+    """"the stored cell volume agrees with the recomputed one": d-spacing divides the STORED volume, so every operation that creates an
+    entry must store Crystal_UnitCellVolume of that very entry.  The two producers are Crystal_AddCrystal and Crystal_ReadFile; the
+    analysis is the one of rules/c14.py (volume of the inserted slot; the reader's loop over every entry after the sort), read here as
+    the volume clause of this property."""
+    from rules import c14
+    shim = Check('C13', tier, 'other', '', [], [])
+    c14.add_crystal(prog, shim)
+    c14.read_file(prog, shim)
+    n = 0
+    for rule, inst, why, loc in shim.held:
+        if rule in ('volume-of-inserted-entry', 'reader-recomputes-volumes'):
+            n += 1
+            chk.ok('stored-volume', inst, why, loc)
+    for v in shim.violations:
+        if v['rule'] in ('volume-of-inserted-entry', 'reader-recomputes-volumes'):
+            n += 1
+            chk.bad('stored-volume', v['unit'], v['function'], v['instance'], v['loc'],
+                    'the volume stored in a crystal entry is not the volume of that entry\'s own cell: ' + v['message'])
+    chk.floor('producers of stored volumes', n, 2)
 
 
 def trig(fn, field, pi, base='(crystal)'):
